@@ -26,10 +26,10 @@ HOOKS_REQUIRED = [
     "locus fixed at 0", "all-heterozygous locus", "singleton locus",
     "single taxon", "single marker", "non-contiguous raw calls", "ntaxa > 200", "square matrix (ntaxa == nvrnt)", "non-diploid", "fully fixed matrix",
     "subject via DenseUnphasedGenotyping", "subject DenseGenotypeMatrix built directly",
-    "history step: after in-place taxa removal", "history step: after in-place taxa append",
-    "history step: after in-place variant removal", "history step: after in-place variant append",
-    "history step: after in-place taxa reorder/sort/group", "history step: after in-place variant reorder/sort/group",
-    "history step: after assignment through the mat setter", "history step: after element assignment into mat",
+    "history step: in-place taxa removal", "history step: in-place taxa append",
+    "history step: in-place variant removal", "history step: in-place variant append",
+    "history step: in-place taxa reorder/sort/group", "history step: in-place variant reorder/sort/group",
+    "history step: assignment through the mat setter", "history step: element assignment into mat",
     "history step: result object of select_*/delete_*", "history step: unchanged object queried again",
 ]
 RULE = ("seeded class-based matrices: ploidy 2 (65 %) or 1/3/4/6; ntaxa from {1,2,3,7,49,98,103,107,161}, from the sizes "
@@ -244,6 +244,7 @@ class Subject:
         self.reported = set()  # ... of which keyed as a violation of their own
         self.clause = None     # history mode: every judgement is an evaluation of this clause ...
         self.icls = None       # ... keyed by this input class (the most recent change of the live object)
+        self.failed_calls = set()   # methods that raised
 
 
 def do_call(ctx, S, meth, args, kwargs, icls, W, coords):
@@ -251,10 +252,11 @@ def do_call(ctx, S, meth, args, kwargs, icls, W, coords):
     site = site_of(S.obj, meth)
     ctx.ok("C09.returns")
     if S.icls is not None:
-        icls = "%s; %s" % (S.icls, icls)
+        icls = S.icls
     try:
         out = getattr(S.obj, meth)(*args, **kwargs)
     except Exception as e:
+        S.failed_calls.add(meth)
         ctx.violation("C09.returns", site, "raised %s" % type(e).__name__, icls,
                       what="%s(%s) raised %s: %s" % (site, ", ".join([repr(a) for a in args] + ["%s=%r" % kv for kv in kwargs.items()]),
                                                       type(e).__name__, str(e)[:160]),
@@ -320,6 +322,9 @@ def judge_default(ctx, S, name, site, out, R, iN, iP, W, coords):
                 what="%s: a locus where all %d chromosome copies carry allele 1 does not report frequency exactly 1.0 "
                      "(or a segregating one does) [ploidy=%d, ntaxa=%d]; afixed/apoly/maf of the same object follow the "
                      "wrong value (see counters)" % (site, N, P, n), witness=w2)
+    elif name == "maf" and fdiff(out, R.maf) > TOL and consequence(
+            own_p is not None and fdiff(out, numpy.minimum(own_p, 1.0 - own_p)) <= 1e-15):
+        ctx.ok(D)
     elif name == "maf":
         e = fdiff(out, R.maf); ctx.maxnote("maf |got-exact|", e if e < 1e-3 else 0.0)
         if chk(D, e <= TOL, "== min(p, 1-p)", iN, witness=dict(w, err=e, expected=R.maf)):
@@ -330,6 +335,10 @@ def judge_default(ctx, S, name, site, out, R, iN, iP, W, coords):
                 chk(B, ok0, "== 0.0 iff locus fixed", iN, witness=w2)
             else:
                 ctx.ok(B)
+    elif name == "meh" and fdiff(out, R.meh) > TOL and (P == 2 or fdiff(out, R.meh_alt) > TOL) and consequence(
+            own_p is not None and own_p.ndim == 1 and own_p.size > 0 and numpy.ndim(out) == 0
+            and abs(float(out) - P / m * float(numpy.sum(own_p * (1.0 - own_p)))) <= TOL * max(1.0, P)):
+        ctx.ok(D)
     elif name == "meh":
         e = fdiff(out, R.meh)
         if P != 2:
@@ -410,7 +419,7 @@ def judge_dtype(ctx, S, name, site, dt, out, R, W, coords):
     want = numpy.dtype(dt)
     icls = "%s as %s" % (kind, dtname(dt))
     if S.icls is not None:
-        icls = "%s; %s" % (S.icls, icls)
+        icls = S.icls
     w = dict(W, subject=S.kind, requested=dtspell(dt), got=out, got_dtype=str(getattr(out, "dtype", type(out).__name__)))
     got_dt = getattr(out, "dtype", None)
     ok = ctx.check(T, got_dt is not None and numpy.dtype(got_dt) == want, site, "result dtype == requested dtype", icls, witness=w, coords=coords)
@@ -458,18 +467,20 @@ def run_subject(ctx, S, R, g, iN, iP, W, coords, history=False):
         poskw = g.random() < 0.5
         site, out2, ok2 = do_call(ctx, S, name, (dt,) if poskw else (), {} if poskw else {"dtype": dt},
                                   "%s as %s" % (KIND[name], dtname(dt)), dict(W, requested=dtspell(dt)), coords)
-        if ok2:
-            judge_dtype(ctx, S, name, site, dt, out2, R, W, coords)
+        return (site, dt, out2) if ok2 else None
 
     for name in order:
-        if history and g.random() < 0.25:
-            requested()     # requested dtype *before* the default call (a result remembered under the wrong dtype shows here)
+        # history mode: the requested-dtype call is *made* before the default call (an answer remembered under the wrong
+        # dtype would show in the default answer) but judged after it, so that it can be attributed to a reported default
+        pre = requested() if (history and g.random() < 0.25) else None
         site, out, ok = do_call(ctx, S, name, (), {}, "default dtype", W, coords)
         if ok:
             S.res[name] = out
             judge_default(ctx, S, name, site, out, R, iN, iP, W, coords)
         if not history:
-            requested()
+            pre = requested()
+        if pre is not None:
+            judge_dtype(ctx, S, name, pre[0], pre[1], pre[2], R, W, coords)
     judge_codings(ctx, S, R, iP, W, coords)
     # fixation flag is the exact complement of the polymorphism flag (as returned)
     fx, po = S.res.get("afixed"), S.res.get("apoly")
@@ -627,14 +638,22 @@ H_REPEAT = "unchanged object queried again"
 OPS = ["remove_taxa", "append_taxa", "remove_vrnt", "append_vrnt", "reorder_taxa", "reorder_vrnt", "sort_taxa", "sort_vrnt",
        "group_taxa", "group_vrnt", "mat_setter", "element_write", "derived_object", "copy_then_write", "requery"]
 OPW = numpy.array([0.12, 0.10, 0.07, 0.07, 0.05, 0.05, 0.04, 0.05, 0.05, 0.07, 0.07, 0.12, 0.06, 0.04, 0.04])
+H_TAXA = "after in-place change of the taxa axis (remove/append/reorder/sort/group)"
+H_VRNT = "after in-place change of the variant axis (remove/append/reorder/sort/group)"
 OP_ICLS = {
-    "remove_taxa": "after in-place taxa removal", "append_taxa": "after in-place taxa append",
-    "remove_vrnt": "after in-place variant removal", "append_vrnt": "after in-place variant append",
-    "reorder_taxa": "after in-place taxa reorder/sort/group", "sort_taxa": "after in-place taxa reorder/sort/group",
-    "group_taxa": "after in-place taxa reorder/sort/group",
-    "reorder_vrnt": "after in-place variant reorder/sort/group", "sort_vrnt": "after in-place variant reorder/sort/group",
-    "group_vrnt": "after in-place variant reorder/sort/group",
+    "remove_taxa": H_TAXA, "append_taxa": H_TAXA, "reorder_taxa": H_TAXA, "sort_taxa": H_TAXA, "group_taxa": H_TAXA,
+    "remove_vrnt": H_VRNT, "append_vrnt": H_VRNT, "reorder_vrnt": H_VRNT, "sort_vrnt": H_VRNT, "group_vrnt": H_VRNT,
     "mat_setter": "after assignment through the mat setter", "element_write": "after element assignment into mat",
+}
+OP_HOOK = {
+    "remove_taxa": "in-place taxa removal", "append_taxa": "in-place taxa append",
+    "remove_vrnt": "in-place variant removal", "append_vrnt": "in-place variant append",
+    "reorder_taxa": "in-place taxa reorder/sort/group", "sort_taxa": "in-place taxa reorder/sort/group",
+    "group_taxa": "in-place taxa reorder/sort/group",
+    "reorder_vrnt": "in-place variant reorder/sort/group", "sort_vrnt": "in-place variant reorder/sort/group",
+    "group_vrnt": "in-place variant reorder/sort/group",
+    "mat_setter": "assignment through the mat setter", "element_write": "element assignment into mat",
+    "derived_object": "result object of select_*/delete_*", "requery": "unchanged object queried again",
 }
 
 
@@ -655,14 +674,63 @@ def raw_ok(obj, P, phased):
     return bool(x.min() >= 0 and x.max() <= (1 if phased else P))
 
 
+class BufferCtx:
+    """Counts evaluations in the real context at once, holds back violation records until ``flush`` decides."""
+
+    def __init__(self, real):
+        self.real = real
+        self.held = []
+
+    def __getattr__(self, name):          # ok / maxnote / sumnote / hook / raised / rng / ...
+        return getattr(self.real, name)
+
+    def check(self, clause, cond, site, rel, icls="any", what=None, witness=None, coords=None):
+        self.real.ok(clause)
+        if not cond:
+            self.violation(clause, site, rel, icls, what, witness, coords)
+        return bool(cond)
+
+    def violation(self, clause, site, rel, icls="any", what=None, witness=None, coords=None):
+        self.held.append((clause, site, rel, icls, what, witness, coords))
+
+
 def judge_state(ctx, obj, kind, P, phased, label, g, W, trace, coords):
+    """All statistics of the live object against the oracle on its current raw calls.  A deviation is a *history*
+    finding only when a fresh object built from the same raw calls answers correctly (control run, made only when
+    something deviated); what the fresh object gets wrong as well is reported by the stateless clauses under their keys."""
     raw = obj.mat.copy()
     R = O.reference(raw.tolist()) if phased else O.reference_unphased(raw.tolist(), P)
     S = Subject(kind, obj, raw)
     S.clause, S.icls = "C09.history", label
     w = dict(W, history=list(trace), **{"current mat": raw})
-    run_subject(ctx, S, R, g, label, label, w, coords, history=True)
+    buf = BufferCtx(ctx)
+    run_subject(buf, S, R, g, label, label, w, coords, history=True)
     ctx.sumnote("history states judged")
+    if buf.held:
+        stateless_bad = set()
+        try:
+            fresh = type(obj)(raw.copy()) if phased else type(obj)(raw.copy(), ploidy=P)
+            S2 = Subject("fresh %s with the same raw calls (control)" % type(obj).__name__, fresh, raw.copy())
+            iN = "ploidy*n a power of two" if is_pow2(R.N) else "ploidy*n not a power of two"
+            iP = "diploid" if P == 2 else "non-diploid"
+            run_subject(ctx, S2, R, ctx.rng("hist-control", coords[0], len(trace)), iN, iP, w, coords)
+            stateless_bad = S2.bad | S2.failed_calls
+            ctx.sumnote("history control runs on a fresh object")
+        except Exception as e:
+            ctx.raised("history: control construction", e)
+        for rec in buf.held:
+            meth = rec[1].split("~")[0].split(".")[-1]
+            if any(b == meth or b.startswith(meth + "{") for b in stateless_bad):
+                ctx.sumnote("history deviations also shown by a fresh object (reported by the stateless clauses)")
+            elif meth == "gtfreq" and "gtcount" in S.reported:
+                ctx.sumnote("gtfreq deviates only as a consequence of the reported (stale) gtcount")
+            elif rec[0] != "C09.history":      # a call that raised on the live object only
+                ctx.violation(*rec[:4], what=rec[4], witness=rec[5], coords=rec[6])
+            else:   # one key per statistic and kind of change; the specific relation that failed goes into the text
+                ctx.violation(rec[0], rec[1], "== definition evaluated on the object's current raw calls", rec[3],
+                              what="%s %s: answer does not describe the raw calls the object holds now (failed: %s); a fresh "
+                                   "object with the same raw calls answers correctly" % (rec[1], rec[3], rec[2]),
+                              witness=rec[5], coords=rec[6])
     return S
 
 
@@ -808,7 +876,7 @@ def one_history(ctx, c):
         except Exception as e:
             ctx.raised("history: " + op, e)
             desc += " [raised %s]" % type(e).__name__
-        ctx.hook("history step: " + (OP_ICLS.get(op) or {"derived_object": "result object of select_*/delete_*", "requery": H_REPEAT}[op]))
+        ctx.hook("history step: " + OP_HOOK[op])
         trace.append(desc)
         if not raw_ok(obj, P, phased):
             ctx.sumnote("history stopped: operation left an invalid genotype matrix (not a C09 matter)")
@@ -823,7 +891,7 @@ def one_history(ctx, c):
                 judge_state(ctx, o2, "%s [%s]" % (type(o2).__name__, lab2), P, phased, lab2, g, W, trace, coords)
 
 
-FAMILIES = {"mat": (one_case, 9000, 260000), "hist": (one_history, 1500, 24000)}
+FAMILIES = {"mat": (one_case, 9000, 240000), "hist": (one_history, 1500, 20000)}
 QUICK_TOTAL, THOROUGH_TOTAL = FAMILIES["mat"][1], FAMILIES["mat"][2]
 
 
